@@ -1005,6 +1005,22 @@ theorem namespace_dir_differs_outside_charset (s : Str) (c : Char) (hc : c ∈ s
   rw [← e] at hc
   exact h (to_valid_module_name_chars s c hc)
 
+/-- **the package-root directory `<name>_<version>` is one path segment for every name text** — also for a
+`python-gapic-name` override that contains `/`, blanks or capitals (the translated `Naming.module_name` /
+`NewNaming.versioned_module_name`) — as soon as the version holds no `/` (`inferred_segments_clean`: it is a capture of the
+version pattern); with the old naming the segment is `<name>.<version>`, equally slash-free -/
+theorem package_root_segment_no_slash (name version : Str) (hv : '/' ∉ version) :
+    '/' ∉ Pinned.Funcs.new_naming_versioned_module_name (Pinned.Funcs.naming_module_name name) version ∧
+    '/' ∉ Pinned.Funcs.old_naming_versioned_module_name (Pinned.Funcs.naming_module_name name) version := by
+  have hn := valid_module_name_no_slash name
+  unfold Pinned.Funcs.new_naming_versioned_module_name Pinned.Funcs.old_naming_versioned_module_name
+    Pinned.Funcs.naming_module_name
+  constructor <;> (cases version <;> simp_all [PyRt.truthy])
+
+/-- the same name text gives a non-empty root segment unless the text itself is empty -/
+example : Pinned.Funcs.new_naming_versioned_module_name (Pinned.Funcs.naming_module_name "My/Lib X".toList) "v1".toList
+    = "my_lib_x_v1".toList := by decide +kernel
+
 /-- non-vacuity and sharpness: ordinary segments satisfy the condition; `-` and `..` show what the charset theorem
 does not exclude (a segment can still be `.`/`..`: that is excluded by protoc's identifier grammar, `CleanCtx`) -/
 example : (∀ c ∈ "google_cloud1".toList, Allowed c ∧ c ≠ '-') ∧
